@@ -45,6 +45,51 @@ KILL_CALL_ATTRS = {
 }
 
 
+def _unhoisted_test(n, keys):
+    """`v = <cond>` immediately followed by `if v:` is evaluated as
+    `if <cond>:` when v is not itself a tracked variable (the value was
+    computed at the branch; giving it a name changes nothing)."""
+    if len(n.pred) != 1:
+        return n.ast
+    prev = n.pred[0][0]
+    if not (prev.kind == 'stmt' and isinstance(prev.ast, ast.Assign) and
+            len(prev.ast.targets) == 1 and
+            isinstance(prev.ast.targets[0], ast.Name)):
+        return n.ast
+    name = prev.ast.targets[0].id
+    import re as _re
+    word = _re.compile(r'(?<![\w.])%s(?![\w])' % _re.escape(name))
+    if any(word.search(k) for k in keys) or not any(
+            isinstance(x, ast.Name) and x.id == name
+            for x in ast.walk(n.ast)):
+        return n.ast
+    # only a value that was named to be tested: the test is the name, its
+    # negation or a boolean combination with it at the top level
+    top = n.ast
+    while isinstance(top, ast.UnaryOp) and isinstance(top.op, ast.Not):
+        top = top.operand
+    tops = top.values if isinstance(top, ast.BoolOp) else [top]
+    if not any(isinstance(x, ast.Name) and x.id == name for x in tops):
+        return n.ast
+    cached = getattr(_unhoisted_test, 'cache', None)
+    if cached is None:
+        cached = _unhoisted_test.cache = {}
+    key = (id(n.ast), id(prev.ast))
+    if key in cached and cached[key][0] is n.ast:
+        return cached[key][1]
+    import copy as _copy
+
+    class T(ast.NodeTransformer):
+        def visit_Name(self, node):
+            if node.id == name and isinstance(node.ctx, ast.Load):
+                return ast.copy_location(_copy.deepcopy(prev.ast.value),
+                                         node)
+            return node
+    new = ast.fix_missing_locations(T().visit(_copy.deepcopy(n.ast)))
+    cached[key] = (n.ast, new)
+    return new
+
+
 class Frame(object):
     def __init__(self, module, subst=None, parent=None, func=None):
         self.module = module
@@ -548,9 +593,10 @@ class StateDom(object):
         out = {None: vals}
         if n.kind == 'test':
             tset, fset = set(), set()
+            test_ast = _unhoisted_test(n, keys)
             for v in vals:
                 env = dict(zip(keys, v))
-                t = self.truth(self.ev(n.ast, env, frame))
+                t = self.truth(self.ev(test_ast, env, frame))
                 if t is RAISES:
                     continue
                 if t is UNK or t:
